@@ -120,12 +120,16 @@ func (vm *Vm) Run(ctx context.Context, b []byte) ([]byte, error) {
 	logg.Tracef("new vm run")
 	running := true
 	vm.last = ""
-	vm.st.ResetFlag(state.FLAG_INMATCH)
+	entered := true
 	for running {
 		r := vm.st.MatchFlag(state.FLAG_TERMINATE, true)
 		if r {
 			logg.InfoCtxf(ctx, "terminate set! bailing")
 			return []byte{}, nil
+		}
+		if entered {
+			vm.st.ResetFlag(state.FLAG_INMATCH)
+			entered = false
 		}
 
 		_ = vm.st.ResetFlag(state.FLAG_TERMINATE)
